@@ -120,7 +120,7 @@ func zzH10_binaryDivZero() {
 //verif:config generic posix64 posix64-nommap
 //verif:configq generic posix64
 func zzH10_conv() {
-	B := zzParam("conv_bits", 66, 70)
+	B := zzParam("conv_bits", 40, 70)
 	x, xv := zzSymInt("x", B)
 	fits64 := zzWFits64(xv)
 	v, ok := x.Int64()
@@ -141,7 +141,7 @@ func zzH10_conv() {
 //
 //verif:unwind 40
 func zzH10_asint() {
-	x, xv := zzSymInt("x", zzParam("conv_bits", 66, 70))
+	x, xv := zzSymInt("x", zzParam("conv_bits", 40, 70))
 	s := int64(xv.lo)
 	f64 := zzWFits64(xv)
 	switch zzChoice("target", 8) {
@@ -203,7 +203,7 @@ func zzH10_asint() {
 //verif:config generic posix64 posix64-nommap
 //verif:configq generic posix64
 func zzH10_bitwise() {
-	B := zzParam("bitwise_bits", 40, 66)
+	B := zzParam("bitwise_bits", 36, 66)
 	x, xv := zzSymInt("x", B)
 	y, yv := zzSymInt("y", B)
 	a, ac, ok1 := zzIntValue(x.And(y))
